@@ -436,6 +436,20 @@ def handle (st : St) (cmd : String) (args : List Nat) : St × String :=
         let bad := (List.range T.n).filter (fun s => !(I s).all (LRV.itemOK st.g T I F s))
         s!"lrvalid 0 closed={F.closed st.g} start={LRV.hasItem (I 0) 0 0 []} badstates={bad.take 5}")
     | _, _ => (st, "bad-lrvalid")
+  | "lrsound" =>
+    -- lrsound <nstates {nitems {prod dot nla la*}*}*> ...: soundness of the item sets (LRV.lrSound): the hypothesis
+    -- of the correct-prefix theorem C10_stack_begins_a_sentential_form
+    match st.T, (do
+        let items ← rdList (rdList (do
+          let p ← rd; let d ← rd; let la ← rdList rd
+          pure ({ prod := p, dot := d, la := la } : LRV.VItem)))
+        pure items : Rd _).run args with
+    | some T, some (items, _) =>
+      let I := fun s => items.getD s []
+      (st, if LRV.lrSound st.g T I then "lrsound 1" else
+        let bad := (List.range T.n).filter (fun s => (I s).isEmpty || !(I s).all (LRV.itemSoundOK st.g T I s))
+        s!"lrsound 0 badstates={bad.take 5}")
+    | _, _ => (st, "bad-lrsound")
   | "glr" =>
     -- glr <fuel> <consume> <lexdis>: the GLR driver model on the current grammar, table and input; packed alternatives of
     -- the forest: sym s e prod n (sym s e)*
